@@ -33,10 +33,6 @@ type NodeHost struct {
 	evDone  bool
 }
 
-type seqSource struct{ n uint64 }
-
-func (s *seqSource) Uint64() uint64 { s.n++; return s.n + 1000 }
-
 // NewNodeHost creates a NodeHost inside the current Universe. A NodeHost created for a
 // RaftAddress that was used before is that node restarted: its bootstrap records survive.
 func NewNodeHost(nhConfig config.NodeHostConfig) (*NodeHost, error) {
@@ -411,7 +407,7 @@ func (nh *NodeHost) SyncRemoveData(ctx context.Context, shardID uint64, replicaI
 }
 
 func (nh *NodeHost) GetNoOPSession(shardID uint64) *client.Session {
-	return client.NewNoOPSession(shardID, &seqSource{})
+	return &client.Session{ShardID: shardID, ClientID: 1000 + shardID, SeriesID: client.NoOPSeriesID}
 }
 
 func (nh *NodeHost) local(shardID uint64) (*Replica, error) {
@@ -680,4 +676,3 @@ func (l *logReader) Entries(low uint64, high uint64, maxSize uint64) ([]pb.Entry
 	}
 	return out, nil
 }
-
